@@ -108,6 +108,11 @@ class FitProperties(dict):
         elif key not in FP_RESULTS:
             msg = "Key '{}' not in FP_DEFAULT".format(key)
             raise FitKeyError(msg)
+        if key in FP_DEFAULT:
+            # Settings are stored by value, so that in-place changes
+            # of an object that is owned by the caller are detected
+            # when it is passed again.
+            value = copy.deepcopy(value)
         super(FitProperties, self).__setitem__(key, value)
 
     def reset(self):
